@@ -104,6 +104,66 @@ def is_parser_sig(F, callee):
     return False
 
 
+def is_grammar_parser(F, callee):
+    """a non-terminal of the grammar: a method of SmlParse / SmlParseTlf (parse, parse_with_tlf, check_tlf).  Free helper
+    functions with a parser-like signature (take_n, a split-off half of a parser, ...) are implementation detail: they are
+    analysed inline, so that the sequence of grammar-level parsers is independent of how a parser body is factored."""
+    tr = callee.get("trait")
+    if tr in ("parser::SmlParse", "parser::SmlParseTlf"):
+        return callee.get("method") in ("parse", "parse_with_tlf", "check_tlf")
+    r = callee.get("resolved") or callee
+    b = F.bodies.get(r["def"])
+    if b is not None and b.get("impl_trait") in ("parser::SmlParse", "parser::SmlParseTlf"):
+        return b.get("name") in ("parse", "parse_with_tlf", "check_tlf")
+    return False
+
+
+_CALLS_GRAMMAR = {}
+
+
+def calls_grammar_parser(F, d, _stack=None):
+    """does the crate function d (transitively, through crate-local callees) call a grammar-level parser?"""
+    key = (id(F), d)
+    if key in _CALLS_GRAMMAR:
+        return _CALLS_GRAMMAR[key]
+    _stack = _stack or set()
+    if d in _stack:
+        return False
+    _stack = _stack | {d}
+    b = F.bodies.get(d)
+    r = False
+    if b is not None:
+        for blk in b["blocks"]:
+            t = blk["term"]
+            if t["k"] != "call" or not t.get("callee"):
+                continue
+            c = t["callee"]
+            if is_grammar_parser(F, c):
+                r = True
+                break
+            cd = (c.get("resolved") or c).get("def")
+            if cd in F.bodies and cd != d and calls_grammar_parser(F, cd, _stack):
+                r = True
+                break
+        if not r:
+            pre = d + "::{closure"
+            r = any(calls_grammar_parser(F, d2, _stack) for d2 in F.bodies if d2.startswith(pre))
+    _CALLS_GRAMMAR[key] = r
+    return r
+
+
+def is_parse_unit(F, callee):
+    """what the sequence extraction treats as one step: a grammar-level parser, or a byte-level helper with a parser
+    signature that calls no grammar-level parser (take_byte, take_n, take::<N>, ...).  A free function that merely groups
+    several grammar-level parsers (a split-off part of a parser body) is analysed inline instead."""
+    if is_grammar_parser(F, callee):
+        return True
+    if not is_parser_sig(F, callee):
+        return False
+    r = callee.get("resolved") or callee
+    return not calls_grammar_parser(F, r["def"])
+
+
 def ret_kind(F, callee, dest_ty):
     """'resty' for Result<(&[u8], T), ParseError>, 'bool', or None"""
     if dest_ty.get("k") == "bool":
@@ -124,7 +184,7 @@ class Extractor:
         F = self.F
 
         def f(callee):
-            if not is_parser_fn(F, callee) or not is_parser_sig(F, callee):
+            if not is_parser_fn(F, callee) or not is_parse_unit(F, callee):
                 return False
             r = callee.get("resolved") or callee
             if r["def"] == self_def:
@@ -163,12 +223,12 @@ class Extractor:
         ip.summarizable = None
         out = []
         try:
-            with Tracer(self.A, select=lambda key, callee: is_parser_fn(self.F, callee) and is_parser_sig(self.F, callee)):
+            with Tracer(self.A, select=lambda key, callee: is_parser_fn(self.F, callee) and is_parse_unit(self.F, callee)):
                 st = st or ip.new_state()
                 if args is None:
                     args = ip.fresh_args(body, env, st)
                 for (s2, rv) in ip.run_root(body, env, args, st):
-                    out.append({"st": s2, "ret": rv, "trace": trace_of(s2, body["def"]), "args": args})
+                    out.append({"st": s2, "ret": rv, "trace": trace_of(s2), "args": args})
         finally:
             ip.opaque_fn = old
             ip.summarizable = old_sum
